@@ -13,7 +13,7 @@ import numpy as np
 
 from sim import core
 from sim.fsseam import FsSeam
-from sim.preds import (CALLABLE_KINDS, as_callable, gen_level_pred, gen_position_pred, gen_value_pred, interval_accepts, interval_func, level_accepts, level_func, value_accepts,
+from sim.preds import (CALLABLE_KINDS, as_callable, gen_dx_pred, gen_level_pred, gen_position_pred, gen_value_pred, interval_accepts, interval_func, level_accepts, level_func, value_accepts,
                        value_func)
 from sim.wcheck import Disk, compare_full, gen_world_params
 from checks.c01 import world_reductions
@@ -50,6 +50,9 @@ def generate(rng, tier):
     preds = {"level": gen_level_pred(rng, p["levelmin"], p["levelmax"]), "values": [], "positions": []}
     if rng.random() < 0.35:
         preds["values"].append(gen_value_pred(rng, p, ncells_hint=rng.choice([8, 64, 300, 2000])))
+    if rng.random() < 0.15:
+        # the cell size is a mesh variable like any other: a predicate on it filters rows, it does not move the cut level
+        preds["values"].append(gen_dx_pred(rng, p["levelmin"], p["levelmax"]))
     r = rng.random()
     if r < 0.3:
         pp = gen_position_pred(rng, p["ndim"])
@@ -193,7 +196,7 @@ def measure(case):
 def reductions(case, viol):
     pr = case["preds"]
     for q in world_reductions(case["world"]):
-        if any(s["var"] not in q["hydro_vars"] for s in pr["values"]):
+        if any(s["var"] != "dx" and s["var"] not in q["hydro_vars"] for s in pr["values"]):
             continue
         if any("xyz".index(s["var"][-1]) >= q["ndim"] for s in pr["positions"] + pr.get("intervals", [])):
             continue
